@@ -9,6 +9,7 @@ package main
 import (
 	"bytes"
 	"fmt"
+	"reflect"
 	"strings"
 
 	modbus "github.com/aldas/go-modbus-client"
@@ -19,6 +20,12 @@ import (
 // pointer (the parsers return pointers, callers build values), chosen by `which`
 func xfResponse(kind string, payload []byte, which int) packet.Response {
 	n := uint8(len(payload))
+	switch (which / 16) % 4 {
+	case 1:
+		n = uint8(len(payload) / 2) // the byte count FIELD of a hand-built value need not agree with the payload
+	case 2:
+		n = 0
+	}
 	if kind == "c" {
 		c := packet.ReadCoilsResponse{UnitID: 1, CoilsByteLength: n, Data: payload}
 		d := packet.ReadDiscreteInputsResponse{UnitID: 1, InputsByteLength: n, Data: payload}
@@ -103,6 +110,12 @@ func execXf(ts []string) string {
 	same := "same"
 	if !bytes.Equal(work, orig) {
 		same = "CHANGED"
+	}
+	// the response value itself (a pointer was handed in): its payload slice is what it was
+	if rv := reflect.Indirect(reflect.ValueOf(resp)); rv.Kind() == reflect.Struct {
+		if f := rv.FieldByName("Data"); f.IsValid() && f.Kind() == reflect.Slice && (f.Len() != len(orig) || !bytes.Equal(f.Bytes(), orig)) {
+			same = "CHANGED"
+		}
 	}
 	solo := make([]string, len(fields))
 	for i, f := range parseFields(ts[5]) {
